@@ -50,4 +50,12 @@ MulNafRefines == S /\ OddOrder =>
   \A k \in 0..MaxK :
         LET r == JMulNaf(c, Rep(p1, 2 % c.p), k)
         IN  (IF JIsInf(c, r) THEN GInf ELSE Denote(c, r)) = GMulDA(c, k, p1)
+(* the order of p1 (bounded search), and the table path for every k in [0, 2 * order + 2] and some negative / large k *)
+OrderOfP1 == CHOOSE k \in 1..(2 * c.p + 2) : GMulDA(c, k, p1) = GInf /\ \A j \in 1..(k - 1) : GMulDA(c, j, p1) # GInf
+MulTableRefines == S /\ OddOrder =>
+  LET n == OrderOfP1 IN
+  \A k \in (0..(2 * n + 2)) \cup {3 * n + 1, 4 * n - 1, 5 * n} :
+     LET r == JMulTable(c, Rep(p1, 3 % c.p), k, n)
+     IN  /\ (IF JIsInf(c, r) THEN GInf ELSE Denote(c, r)) = GMulDA(c, k % n, p1)
+         /\ Len(Table(c, Rep(p1, 1), n)) >= 2
 =============================================================================
